@@ -44,10 +44,12 @@ fn hostile_bytes(i: usize) -> Vec<u8> {
         19 => "SUM(T[a \u{20ac}])+A1\u{d7}B2\u{a0}+\u{1f600}C3".as_bytes().to_vec(),
         20 => b"&#x110000;&bogus;&#xD800;&".to_vec(),
         21 => b"1E400".to_vec(),
+        22 => b"A1:B1".to_vec(),
+        23 => b"A1".to_vec(),
         _ => HOSTILE_VALUES[i].as_bytes().to_vec(),
     }
 }
-const N_HOSTILE: usize = 22;
+const N_HOSTILE: usize = 24;
 /// values that address far cells / huge counts: they make the dense `Range` of a sheet huge (a
 /// known finding); on most bases they are left out so that the run is not dominated by aborts
 const FAR_VALUES: [usize; 5] = [3, 10, 11, 12, 13];
@@ -62,6 +64,8 @@ fn hostile_name(i: usize) -> String {
         19 => "multibyte_punct".into(),
         20 => "bad_entity".into(),
         21 => "1E400".into(),
+        22 => "A1:B1".into(),
+        23 => "A1".into(),
         _ => HOSTILE_VALUES[i].into(),
     }
 }
@@ -391,6 +395,40 @@ pub fn biff_records(s: &[u8]) -> Vec<(u16, usize, usize)> {
 
 pub fn biff_atoms(s: &[u8], per_key: usize, full: bool, emit: &mut dyn FnMut(String, String, Vec<u8>)) {
     let recs = biff_records(s);
+    // the SST (with its CONTINUE records) replaced by a table of three strings whose first string
+    // ends `slack` bytes before the end of the SST record, followed by a CONTINUE record of
+    // `tiny` bytes and one with the rest
+    if let Some(first) = recs.iter().position(|r| r.0 == 0x00FC) {
+        let mut last = first;
+        while last + 1 < recs.len() && recs[last + 1].0 == 0x003C {
+            last += 1;
+        }
+        let whole = recs[first].1..recs[last].1 + 4 + recs[last].2;
+        let strings: [&[u8]; 3] = [b"a", b"bcd", b"ef"];
+        let mut body = vec![];
+        body.extend_from_slice(&3u32.to_le_bytes());
+        body.extend_from_slice(&3u32.to_le_bytes());
+        let mut ends = vec![];
+        for st in strings {
+            body.extend_from_slice(&(st.len() as u16).to_le_bytes());
+            body.push(0);
+            body.extend_from_slice(st);
+            ends.push(body.len());
+        }
+        for slack in 0..3usize {
+            for tiny in 0..3usize {
+                let cut1 = (ends[0] + slack).min(body.len());
+                let cut2 = (cut1 + tiny).min(body.len());
+                let mut r = vec![];
+                for (t, part) in [(0x00FCu16, &body[..cut1]), (0x003C, &body[cut1..cut2]), (0x003C, &body[cut2..])] {
+                    r.extend_from_slice(&t.to_le_bytes());
+                    r.extend_from_slice(&(part.len() as u16).to_le_bytes());
+                    r.extend_from_slice(part);
+                }
+                emit(format!("biff:sst_tiny_continue:slack{}:tiny{}", slack, tiny), String::new(), splice(s, &whole, &r));
+            }
+        }
+    }
     let mut seen: std::collections::BTreeMap<u16, usize> = Default::default();
     for (t, at, l) in &recs {
         let c = seen.entry(*t).or_insert(0);
@@ -636,6 +674,18 @@ pub fn ovba_container_atoms(c: &[u8], emit: &mut dyn FnMut(String, Vec<u8>)) {
     let mut n = c.to_vec();
     n[0] = 0;
     emit("signature=0".into(), n);
+    // a chunk that decompresses to more than 4096 bytes (literal + maximal copy token = 4099
+    // bytes), followed by further copy tokens: the offset/length split is then 13..15 bits wide
+    for more in 1..=3usize {
+        let mut data = vec![0b0000_0110u8 | if more > 1 { 0b1000 } else { 0 } | if more > 2 { 0b1_0000 } else { 0 }, b'a', 0xFF, 0x0F];
+        for _ in 0..more {
+            data.extend_from_slice(&[0x07, 0x00]);
+        }
+        let mut n = vec![0x01u8];
+        n.extend_from_slice(&(0xB000u16 | (data.len() as u16 + 2 - 3)).to_le_bytes());
+        n.extend_from_slice(&data);
+        emit(format!("chunk_past_4096:{}", more), n);
+    }
     let h0 = u16::from_le_bytes([c[1], c[2]]);
     for (nm, h) in [("chunk_sig=0", h0 & 0x8FFF), ("chunk_size=0", h0 & 0xF000), ("chunk_size=fff", h0 | 0x0FFF), ("chunk_flag_flipped", h0 ^ 0x8000)] {
         let mut n = c.to_vec();
